@@ -86,6 +86,11 @@ def close_facts(func):
     need(sorted((a[0], a[1]) for a in part2) == [("busy", "load"), ("busy", "store"), ("idle", "load"), ("idle", "store")],
          "Pool.close: expected the two swaps of self.idle / self.busy after closed = True")
     need([a[0] for a in part2 if a[1] == "store"] == ["idle", "busy"], "Pool.close: swap order is not idle, busy")
+    store_region = part1[-1][2]
+    load_regions = {a[2] for a in part1[:-1]}
+    need(not (store_region is None and load_regions != {None}),
+         "Pool.close assigns self.closed OUTSIDE the count_lock region in which it tells the workers to stop "
+         "(a Pool.process taking the lock in between still sees an open pool): no model variant")
     r1 = {a[2] for a in part1}
     r2 = {a[2] for a in part2}
     need(len(r1) == 1 and len(r2) == 1, "Pool.close: a phase is only partly inside count_lock: no model variant")
